@@ -555,6 +555,77 @@ and stand for `St.init`. -/
 section MatchesSource
 open I2N.Extracted.GenCmd
 
+/-- the primary-restriction scan (`for variant in re.split(…, value): if variant in available_restrictions:
+use_tests_default = False`; translated since the translator has loops with effects) as ONE update of `useDef` -/
+def scanPrimary (av : Avail) (value : Str) : M Unit :=
+  modSt (fun st => { st with useDef := st.useDef && !(splitVariants value).any (av.restrictions.contains ·) })
+/-- `for vm_name in with_selected_vms: if vm_name not in available_vms: raise ValueError(…)` as one test -/
+def checkSelVms (av : Avail) (l : List Str) : M Unit := fun st =>
+  if l.all (av.vms.contains ·) then .ok ((), st) else .error Err.valueError
+/-- the three statements in front of the `break` of the first-matching-vm search as one update -/
+def addVmLine (vm key value : Str) : M Unit :=
+  modSt (fun st => { st with vmNoDef := vm :: st.vmNoDef,
+                             vmLines := if value.isEmpty then st.vmLines
+                                        else st.vmLines ++ [(vm, (removeAll ('_' :: vm) key, value))] })
+
+theorem scan_loop_run (av : Avail) (l : List Str) (st : St) :
+    (l.forM (fun variant => (do
+        if av.restrictions.contains variant then dropTestsDefault else pure () : M Unit))) st =
+      .ok ((), { st with useDef := st.useDef && !l.any (av.restrictions.contains ·) }) := by
+  induction l generalizing st with
+  | nil => simp [List.forM, pure, StateT.pure, Except.pure]
+  | cons v r ih =>
+    simp only [List.forM, bind, StateT.bind]
+    by_cases h : av.restrictions.contains v = true
+    · simp only [h, if_true, dropTestsDefault, modSt, Except.bind, List.any_cons, Bool.true_or,
+        Bool.not_true, Bool.and_false]
+      have := ih { st with useDef := false }
+      simp only [Bool.false_and] at this
+      exact this
+    · have h' : av.restrictions.contains v = false := by simpa using h
+      simp only [h', Bool.false_eq_true, if_false, pure, StateT.pure, Except.pure, Except.bind,
+        List.any_cons, Bool.false_or]
+      exact ih st
+
+/-- **the translated primary-restriction scan is the hand model's update** — any number of variants -/
+theorem scan_loop_matches (av : Avail) (value : Str) :
+    ((splitVariants value).forM (fun variant => (do
+        if av.restrictions.contains variant then dropTestsDefault else pure () : M Unit))) = scanPrimary av value := by
+  funext st
+  rw [scan_loop_run]; rfl
+
+theorem vms_loop_run (av : Avail) (l : List Str) (st : St) :
+    (l.forM (fun vm_name => (do
+        if !av.vms.contains vm_name then throw Err.valueError : M Unit))) st =
+      if l.all (av.vms.contains ·) then .ok ((), st) else .error Err.valueError := by
+  induction l with
+  | nil => simp [List.forM, pure, StateT.pure, Except.pure]
+  | cons v r ih =>
+    simp only [List.forM, bind, StateT.bind]
+    by_cases h : av.vms.contains v = true
+    · simp only [h, Bool.not_true, Bool.false_eq_true, if_false, pure, StateT.pure, Except.pure,
+        Except.bind, List.all_cons, Bool.true_and]
+      exact ih
+    · have h' : av.vms.contains v = false := by simpa using h
+      simp only [h', Bool.not_false, if_true, throw, throwThe, MonadExceptOf.throw, StateT.lift, Except.bind,
+        List.all_cons, Bool.false_and, Bool.false_eq_true, if_false, bind]
+      rfl
+
+/-- **the translated `vms=` validation loop is the hand model's `all` test** — any number of selected vms -/
+theorem vms_loop_matches (av : Avail) (l : List Str) :
+    (l.forM (fun vm_name => (do if !av.vms.contains vm_name then throw Err.valueError : M Unit))) = checkSelVms av l := by
+  funext st
+  rw [vms_loop_run]; rfl
+
+/-- the translated body of the first-matching-vm search is the hand model's update -/
+theorem vm_body_matches (vm key value : Str) :
+    (do dropVmDefault vm
+        let vm_str := vmStrOf vm key value
+        addVmStr vm vm_str : M Unit) = addVmLine vm key value := by
+  funext st
+  simp only [bind, StateT.bind, dropVmDefault, addVmStr, vmStrOf, addVmLine, modSt, Except.bind]
+  by_cases h : value.isEmpty = true <;> simp [h]
+
 set_option linter.unusedSimpArgs false in
 /-- **The hand written `step` IS the body of the tokenizing loop of `params_from_cmd`**: for every configuration, every
 loop state and every argument the regenerated definition ends in the same state or raises the same error.  No
@@ -563,6 +634,7 @@ theorem step_matches_source (av : Avail) (st : St) (arg : Str) :
     (genStep av arg).run st = (step av st arg).map (fun s => ((), s)) := by
   have tac : True := trivial
   unfold genStep step
+  simp only [scan_loop_matches, vms_loop_matches]
   cases h : splitArg arg with
   | none =>
     simp [StateT.run, bind, StateT.bind, Except.bind, throw, throwThe, MonadExceptOf.throw, StateT.lift, Except.map]
@@ -588,13 +660,15 @@ theorem step_matches_source (av : Avail) (st : St) (arg : Str) :
             cases netsBy av (some (removeAll kUNets key, value)) <;> rfl
       · cases h6 : av.vms.find? (vmKey key) <;>
           simp [StateT.run, bind, StateT.bind, Except.bind, throw, throwThe, MonadExceptOf.throw, StateT.lift,
-            Except.map, pure, StateT.pure, Except.pure, modSt, addVmLine, pyStartsWith, h1, h2, h3, h6]
+            Except.map, pure, StateT.pure, Except.pure, modSt, dropVmDefault, addVmStr, vmStrOf, pyStartsWith,
+            h1, h2, h3, h6]
+        by_cases hv : value = [] <;> simp [hv]
     by_cases h7 : (key == kVms) = true
     · by_cases h10 : (splitComma value).all (av.vms.contains ·) = true
-      · simp [StateT.run, bind, StateT.bind, Except.bind, Except.map, pure, StateT.pure, Except.pure, modSt,
+      · simp [StateT.run, bind, StateT.bind, Except.bind, Except.map, pure, StateT.pure, Except.pure, modSt, readSt,
           setSelVms, checkSelVms, pyStartsWith, h1, h2, h7, h10]
         simp at h10; rw [if_pos h10, if_pos h10]
-      · simp [StateT.run, bind, StateT.bind, Except.bind, Except.map, pure, StateT.pure, Except.pure, modSt,
+      · simp [StateT.run, bind, StateT.bind, Except.bind, Except.map, pure, StateT.pure, Except.pure, modSt, readSt,
           setSelVms, checkSelVms, pyStartsWith, h1, h2, h7, h10]
         simp at h10; rw [if_neg (by simpa using h10), if_neg (by simpa using h10)]
     by_cases h8 : (key == kNets) = true
@@ -637,18 +711,20 @@ theorem paramsFromCmd_matches_source (av : Avail) (args : List Str) :
   cases loop av (St.init av) args <;> rfl
 
 /-- the generated definition computes (it is not stuck on anything): a malformed argument; an unknown object; an unknown
-vm; the two nets conflicts in both orders; a primary restriction lifts the default; a plain override -/
-example : (genStep av0 "ccc".toList).run (St.init av0) = .error .valueError := by decide
-example : (genStep av0 "only_vm10=x".toList).run (St.init av0) = .error .valueError := by decide
-example : (genStep av0 "vms=vm1,vm3".toList).run (St.init av0) = .error .valueError := by decide
+vm; the two nets conflicts in both orders; a primary restriction lifts the default; a plain override.
+(`decide +kernel`: the instance is evaluated by the kernel — since the three inner loops are translated (`List.forM`,
+`find?` inside `StateT`) the elaborator's own reduction of these terms takes minutes and tens of GB; no axiom is added.) -/
+example : (genStep av0 "ccc".toList).run (St.init av0) = .error .valueError := by decide +kernel
+example : (genStep av0 "only_vm10=x".toList).run (St.init av0) = .error .valueError := by decide +kernel
+example : (genStep av0 "vms=vm1,vm3".toList).run (St.init av0) = .error .valueError := by decide +kernel
 example : ((genStep av0 "nets=net1".toList).run (St.init av0) >>= fun r => (genStep av0 "only_nets=net2".toList).run r.2)
-    = .error .valueError := by decide
+    = .error .valueError := by decide +kernel
 example : ((genStep av0 "only_nets=net2".toList).run (St.init av0) >>= fun r => (genStep av0 "nets=net1".toList).run r.2)
-    = .error .valueError := by decide
+    = .error .valueError := by decide +kernel
 example : ((genStep av0 "only=normal..tutorial1".toList).run (St.init av0)).toOption.map (·.2.useDef) = some false := by
-  decide
+  decide +kernel
 example : ((genStep av0 "a=b,c".toList).run (St.init av0)).toOption.map (·.2.pd) =
-    some [("a".toList, "b c".toList)] := by decide
+    some [("a".toList, "b c".toList)] := by decide +kernel
 
 end MatchesSource
 
